@@ -38,9 +38,9 @@ Vocabulary (definitions in `LoomVerif/Proofs/C07Rw.lean`, `C07Handover.lean`, `C
 FINDINGS recorded here: F9 (`Lock.blocks_try_acquirers`): a thread whose pending operation is a
 `try_lock` is disabled by another thread's acquisition although the reference semantics never
 disables a `try_lock`.  `Lock.release_wakes`: a release wakes (`Thread.wake`) every other thread with a
-pending operation on the lock: a BLOCKED one becomes `runnable false`, any other state is left alone (since
-the repair of finding F18; before it every such thread was set `runnable false` whatever its state, and an
-unpark token was destroyed — see `Release.keeps_token` in `Props/C08.lean`).
+pending operation on the lock: a BLOCKED one becomes `runnable`, any other state is left alone (since
+the repair of finding F18; before it every such thread was set runnable whatever its state), and nobody's
+unpark token (`Thread.token`) is touched — see `Release.keeps_token` in `Props/C08.lean`.
 -/
 import LoomVerif.Proofs.SyncExamples
 
@@ -275,9 +275,9 @@ theorem RwLock.exclusion :
 
 /-- `Mutex::release_lock` by the active thread: the mutex is free, its clock becomes
 `old ⊔ released ⊔ causality` of the releasing thread (`Sync.store … .rel`), and every other thread
-whose pending operation is on the mutex is woken (`Thread.wake`: `runnable false` if it is BLOCKED, left
-alone in any other state — yielded, runnable with or without an unpark token, terminated; repair of finding
-F18).  All other threads and objects are unchanged.  (When no thread is active — "execution
+whose pending operation is on the mutex is woken (`Thread.wake`: `runnable` if it is BLOCKED, left
+alone in any other state — yielded, runnable, terminated; the unpark token is never touched; repair of
+finding F18).  All other threads and objects are unchanged.  (When no thread is active — "execution
 has deadlocked" — only the lock flag is cleared.) -/
 theorem Lock.release_wakes (w : World) (o : Nat) (m : MutexSt)
     (h : w.exec.objs[o]? = some (.mutex m)) :
@@ -574,7 +574,7 @@ held by thread 0) thread 1, being at a `try_lock`, is enabled. -/
 theorem Lock.blocks_try_acquirers :
     (∀ (w : World) (c : TCtl) (mi : Nat), c.stage = 0 →
       w.runOp c (.tryLock mi) = (w.setStage 1).branch (w.mutexObj mi) .opaque) ∧
-    ((Ex.wF9.ths.get 1).state = .runnable false ∧
+    ((Ex.wF9.ths.get 1).state = .runnable ∧
       (Ex.wF9.ths.get 1).operation = some ⟨Ex.wF9.mutexObj 0, .opaque⟩) ∧
     (Ex.wF9.runOp { stage := 1 } (.tryLock 0)).toOption.map
       (fun w' => ((w'.ths.get 1).state, w'.events.head?.map (·.ret))) =
